@@ -36,6 +36,7 @@ META = {
 SELECTORS = R.OP_SELECTORS + ['CUSTOM_OP']
 ALGOS = [R.MINMAX, R.FLOATCAST]
 BUILTIN_OF = {v: k for k, v in G.QNAME.items()}
+PRIORS = {R.MINMAX: [R.DRQ8, R.A8W8], R.FLOATCAST: [R.FP16]}
 
 
 def full_lattice():
@@ -92,6 +93,19 @@ def run_acceptance(item):
     raise Violation('accepted_for_op_but_not_under_star', '%s %s %s resolves to %s' % (sel, algo, c, key))
   if not ok and key != R.NOQ:
     raise Violation('refused_for_op_but_let_through_under_star', '%s %s %s resolves to %s' % (sel, algo, c, key))
+  # the verdict is a function of (op, config): replacing an earlier '*' rule that
+  # has already been resolved must give what a fresh manager gives
+  for prior in (PRIORS[algo]):
+    rm3 = recipe_manager.RecipeManager()
+    rm3.add_quantization_config('.*', qtyping.TFLOperationName.ALL_SUPPORTED, R.make_config(prior), algo)
+    rm3.get_quantization_configs(qtyping.TFLOperationName(sel), 'some/op;')
+    rm3.add_quantization_config('.*', qtyping.TFLOperationName.ALL_SUPPORTED, cfg, algo)
+    got3 = rm3.get_quantization_configs(qtyping.TFLOperationName(sel), 'some/op;')
+    key3 = str(getattr(got3[0], 'value', got3[0]))
+    if key3 != key or got3[1] != got[1]:
+      raise Violation('star_verdict_depends_on_earlier_rule',
+                      '%s %s %s: fresh manager resolves to %s, after replacing a resolved "*" rule (%s) to %s' % (
+                          sel, algo, c, key, prior, key3))
   if ok and R.mode_of(algo, c) == 'invalid':
     raise Violation('accepted_config_has_no_execution_mode', '%s %s %s' % (sel, algo, c))
   labels.append('accepted' if ok else 'refused')
